@@ -75,6 +75,21 @@ def nxNodes (g : NxGraph) : List Nat := dedup (g.edges.flatMap (fun e => [e.1, e
 def nxNeighbors (g : NxGraph) (n : Nat) : List Nat :=
   dedup (g.edges.filterMap (fun e => if e.1 = n then some e.2 else if e.2 = n then some e.1 else none))
 
+/-- networkx `EdgeView.__iter__` (`seen = {}; for n, nbrs in adjacency: for nbr in nbrs: if nbr not in seen: yield (n, nbr); seen[n] = 1`):
+    `seen` = the nodes already completed -/
+def nxEdgesFrom (g : NxGraph) : List Nat → List Nat → List (Nat × Nat)
+  | [], _ => []
+  | n :: rest, seen =>
+      ((nxNeighbors g n).filter (fun m => !seen.contains m)).map (fun m => (n, m)) ++ nxEdgesFrom g rest (n :: seen)
+
+/-- `list(g.edges)`: for every node `n` in the order of `g.nodes`, `(n, m)` for every neighbour `m` of `n` (in the order of `g.adj[n]`)
+    that is not a node already completed — every undirected edge once, seen from its first-listed end point; a self-loop once, as `(n, n)` -/
+def nxEdges (g : NxGraph) : List (Nat × Nat) := nxEdgesFrom g (nxNodes g) []
+
+/-- `xs.remove(v)` on a list: the first occurrence of `v` is removed; `none` = ValueError (`v` is not in `xs`) -/
+def listRemove? {α} [DecidableEq α] (xs : List α) (v : α) : Option (List α) :=
+  if xs.contains v then some (xs.erase v) else none
+
 /-- `itertools.combinations(xs, 2)`: `(xs[i], xs[j])` for `i < j`, in lexicographic order of `(i, j)` -/
 def combinations2 {α} : List α → List (α × α)
   | [] => []
@@ -319,5 +334,20 @@ def calcAngles (bonds : List (Nat × Nat)) : List (List Nat) :=
       angles
       )
   angles
+
+/-- translated from `calc_dihedrals` in mofun/rough_uff.py; `bonds` is the list of the rows of the (n, 2) array; the result is the list of the rows `(a1, a, b, b1)` in the order they are appended; `none` = ValueError of `list.remove` (the equivalence theorem shows it does not happen) -/
+def calcDihedrals (bonds : List (Nat × Nat)) : Option (List (List Nat)) := do
+  let g : Py6.NxGraph := Py6.nxEmpty
+  let g : Py6.NxGraph := (Py6.nxAddEdges g bonds)
+  let dihedrals : List (List Nat) := []
+  let dihedrals ← Py.forFoldM? (Py6.nxEdges g) dihedrals (fun dihedrals (a, b) => do
+      let a_neighbors : List Nat := (Py6.nxNeighbors g a)
+      let a_neighbors ← (Py6.listRemove? a_neighbors b)
+      let b_neighbors : List Nat := (Py6.nxNeighbors g b)
+      let b_neighbors ← (Py6.listRemove? b_neighbors a)
+      let dihedrals : List (List Nat) := (dihedrals ++ (List.flatten (List.map (fun a1 => (List.map (fun b1 => [a1, a, b, b1]) b_neighbors)) a_neighbors)))
+      pure dihedrals
+      )
+  pure dihedrals
 
 end Mofun.Generated.Code6
